@@ -80,6 +80,85 @@ type varsCase struct {
 	Dotenvs  map[string][][2]string `json:"dotenvs"`
 	Only     int                 `json:"only"`
 	Matrix   [][]string          `json:"matrix,omitempty"` // product: rows: key, items...
+	Loop     *vLoop              `json:"loop,omitempty"`   // kind loop
+}
+
+// vLoop: one task with a `for:` entry whose loop variable may collide with a variable that is
+// already visible in the task (task / global variable of the same name): every iteration must
+// see its own element (C02: one execution per element, with that element).
+type vLoop struct {
+	Form  string   `json:"form"`  // list (`for: [..]`, variable ITEM) | var (`for: {var: LST, as: NAME}`)
+	Items []string `json:"items"` // non-empty words without spaces
+	Stale string   `json:"stale"` // "" | task | global: where a variable named like the loop variable is defined
+}
+
+func evalVarsLoop(d varsCase) []varsLine {
+	l := d.Loop
+	varsCaseNo++
+	base := os.Getenv("VERIF_SCRATCH")
+	if base == "" {
+		base = os.TempDir()
+	}
+	dir := filepath.Join(base, fmt.Sprintf("vl%d-%d", os.Getpid(), varsCaseNo))
+	os.MkdirAll(dir, 0o755)
+	defer os.RemoveAll(dir)
+	lv := "ITEM"
+	if l.Form == "var" {
+		lv = "NAME"
+	}
+	var y strings.Builder
+	y.WriteString("version: '3'\nvars:\n  G: gv\n")
+	if l.Stale == "global" {
+		fmt.Fprintf(&y, "  %s: stale\n", lv)
+	}
+	y.WriteString("tasks:\n  loop:\n    vars:\n      T: tv\n")
+	if l.Form == "var" {
+		fmt.Fprintf(&y, "      LST: %s\n", varsYamlQ(strings.Join(l.Items, " ")))
+	}
+	if l.Stale == "task" {
+		fmt.Fprintf(&y, "      %s: stale\n", lv)
+	}
+	y.WriteString("    cmds:\n      - for: ")
+	if l.Form == "var" {
+		y.WriteString("{var: LST, as: NAME}\n")
+	} else {
+		y.WriteString("[" + strings.Join(l.Items, ", ") + "]\n")
+	}
+	fmt.Fprintf(&y, "        cmd: %s\n", varsYamlQ("echo {{."+lv+"}}|{{.T}}|{{.G}}"))
+	os.WriteFile(filepath.Join(dir, "Taskfile.yml"), []byte(y.String()), 0o644)
+	// model line: lv=1 T=2 G=3; the visible variables, then the items, then the referenced names
+	var cl strings.Builder
+	nv := 2
+	if l.Stale != "" {
+		nv = 3
+	}
+	fmt.Fprintf(&cl, "vars.loop 1 %d 2 %s 3 %s", nv, hx("tv"), hx("gv"))
+	if l.Stale != "" {
+		fmt.Fprintf(&cl, " 1 %s", hx("stale"))
+	}
+	fmt.Fprintf(&cl, " %d", len(l.Items))
+	for _, it := range l.Items {
+		cl.WriteString(" " + hx(it))
+	}
+	cl.WriteString(" 3 1 2 3")
+	e := task.NewExecutor(task.WithDir(dir), task.WithStdout(io.Discard), task.WithStderr(io.Discard), task.WithSilent(true),
+		task.WithTempDir(task.TempDir{Remote: filepath.Join(dir, ".task"), Fingerprint: filepath.Join(dir, ".task")}))
+	if err := e.Setup(); err != nil {
+		return []varsLine{{cl.String(), "setup-error " + hx(err.Error())}}
+	}
+	t, err := e.CompiledTask(&task.Call{Task: "loop"})
+	if err != nil {
+		return []varsLine{{cl.String(), "error " + hx(err.Error())}}
+	}
+	parts := []string{fmt.Sprint(len(t.Cmds))}
+	for _, c := range t.Cmds {
+		var vals []string
+		for _, v := range strings.Split(strings.TrimPrefix(c.Cmd, "echo "), "|") {
+			vals = append(vals, hx(v))
+		}
+		parts = append(parts, strings.Join(vals, ","))
+	}
+	return []varsLine{{cl.String(), strings.Join(parts, " ")}}
 }
 
 func varsYamlQ(s string) string { return "'" + strings.ReplaceAll(s, "'", "''") + "'" }
@@ -283,6 +362,9 @@ func evalVarsAll(d varsCase) (lines []varsLine) {
 			lines = append(lines, varsLine{"vars.resolve panic", fmt.Sprintf("panic %v", r)})
 		}
 	}()
+	if d.Kind == "loop" && d.Loop != nil {
+		return evalVarsLoop(d)
+	}
 	varsCaseNo++
 	base := os.Getenv("VERIF_SCRATCH")
 	if base == "" {
@@ -808,6 +890,16 @@ func runVars(c *Ctx) {
 	for i := 0; i < c.Pick(80, 800) && os.Getenv("VERIF_VARS_ENVDEP") != "0"; i++ {
 		c.Hit("stream:envdep")
 		emitAll(c.genVarsCase(true))
+	}
+	nl := c.Pick(40, 400)
+	for i := 0; i < nl; i++ {
+		r := c.Rng
+		l := &vLoop{Form: []string{"list", "var"}[r.Intn(2)], Stale: []string{"", "task", "global"}[r.Intn(3)]}
+		for j := 0; j < 1+r.Intn(4); j++ {
+			l.Items = append(l.Items, fmt.Sprintf("i%d%c", j, 'a'+rune(r.Intn(3))))
+		}
+		c.Hit("loop:" + l.Form + ":stale=" + l.Stale)
+		emitAll(varsCase{Kind: "loop", Loop: l, Dotenvs: map[string][][2]string{}})
 	}
 	m := c.Pick(60, 600)
 	for i := 0; i < m; i++ {
